@@ -33,6 +33,24 @@ class Rec(float):
         return o
 
 
+class Txt:
+    """a real-number class outside Python's numeric tower: keeps the text, compares by value"""
+    def __init__(self, s):
+        if not isinstance(s, str):
+            raise TypeError("real_cls must be handed the token text")
+        self.value = float(s)        # ValueError for a non-number, as float() would
+        self.text = str(s)
+
+    def __eq__(self, o):
+        return isinstance(o, Txt) and o.value == self.value
+
+    def __hash__(self):
+        return hash(("Txt", self.value))
+
+    def __float__(self):
+        return self.value
+
+
 class RecQ:
     def __init__(self, value, units):
         self.value = value
@@ -93,7 +111,7 @@ ALT = {"1.50": "1.5", "0.10": "0.100", "1.0E3": "1000.0", "-2.50": "-2.5", "+.5"
 
 
 def parser_for(d, real, qty, cont):
-    real_cls = {"float": None, "Decimal": Decimal, "Rec": Rec}[real]
+    real_cls = {"float": None, "Decimal": Decimal, "Rec": Rec, "Txt": Txt}[real]
     q_cls = {"Quantity": None, "RecQ": RecQ}[qty]
     kw = {}
     if cont:
@@ -116,7 +134,7 @@ def parser_for(d, real, qty, cont):
 def load(d, text, real, qty, cont):
     if d == "OMNI":
         import pvl
-        real_cls = {"float": None, "Decimal": Decimal, "Rec": Rec}[real]
+        real_cls = {"float": None, "Decimal": Decimal, "Rec": Rec, "Txt": Txt}[real]
         q_cls = {"Quantity": None, "RecQ": RecQ}[qty]
         kw = {}
         if cont:
@@ -157,6 +175,8 @@ def walk(v, real, qty, cont, spelled, problems, path, top=False, key=None):
         return type(v)(walk(x, real, qty, cont, spelled, problems, path + "{}") for x in v)
     if isinstance(v, bool) or v is None or isinstance(v, str):
         return v
+    if isinstance(v, Txt) and real != "Txt":
+        problems.append("%s: unexpected Txt" % path)
     if type(v) is int:
         return v
     if isinstance(v, int):
@@ -174,6 +194,13 @@ def walk(v, real, qty, cont, spelled, problems, path, top=False, key=None):
             return float(v)
         if text is not None and str(v) != str(Decimal(text)):
             problems.append("%s: Decimal lost written digits: %r from %r" % (path, str(v), text))
+        return float(v)
+    if real == "Txt":
+        if type(v) is not Txt:
+            problems.append("%s: real is %s, expected the text-keeping class" % (path, type(v).__name__))
+            return float(v)
+        if text is not None and v.text != text:
+            problems.append("%s: real class was handed %r, the text says %r" % (path, v.text, text))
         return float(v)
     if real == "Rec":
         if type(v) is not Rec:
@@ -234,7 +261,7 @@ def shard(spec):
         return acc
     for spelled in REALS + INTS:
         text = tmpl.format(v=spelled, w=ALT[spelled])
-        for real, qty, cont in itertools.product(("float", "Decimal", "Rec"), ("Quantity", "RecQ"), (False, True)):
+        for real, qty, cont in itertools.product(("float", "Decimal", "Rec", "Txt"), ("Quantity", "RecQ"), (False, True)):
             if restrict == 2 and d in ("ODL", "PDS3"):
                 continue
             case = {"dialect": d, "text": text, "real": real, "qty": qty, "cont": cont,
@@ -261,7 +288,7 @@ def run(ctx):
         "evaluations": acc.n, "distinct_nontrivial": acc.nontrivial,
         "states": len(acc.sets["pos"]), "transitions": acc.traces,
         "traces_validated_against_impl": acc.traces,
-        "rule": "%d grammar positions x %d spellings (reals %r, integers %r) x 3 real classes x 2 quantity classes x "
+        "rule": "%d grammar positions x %d spellings (reals %r, integers %r) x 4 real classes (float, Decimal, a recording float subclass, a text-keeping class outside the numeric tower) x 2 quantity classes x "
                 "2 container-class sets x 5 parser/decoder families, full product; states = (position, "
                 "substitute combination); non-trivial = both configurations loaded and every node of the result "
                 "was type-checked and compared after mapping back" % (len(POSITIONS), len(REALS + INTS), REALS, INTS),
